@@ -6,6 +6,7 @@ import hashlib
 import json
 import os
 import random
+import re
 import subprocess
 import sys
 
@@ -85,6 +86,8 @@ def run(stamp):
         if name == "utcp_send_would_block":
             lean_args = [args[2], args[0], args[1]]
         call = tmpl % args
+        if m.get("c_now", m["c"]) != m["c"]:
+            call = re.sub(r"\b%s\(" % re.escape(m["c"]), m["c_now"] + "(", call)   # the function was renamed in this tree (see ctrans.find_renamed)
         (cxx_lines if cxx else c_lines).append('  printf("%d %%lld\\n", (long long)(%s));' % (n, call))
         lean_lines.append("%d %s %s" % (n, name, " ".join(str(a) for a in lean_args)))
         n += 1
